@@ -139,6 +139,7 @@ type AfterClause struct {
 type AtClause struct {
 	Callee  string
 	Nth     int
+	Loop    int    // "callee@Lk": every call to callee inside loop k (0: select by ordinal Nth)
 	Rewrite string // variable name for "rewrite name := expr"
 	C       Clause
 }
@@ -557,6 +558,12 @@ func parseContractFile(path string, cs *ContractSet) error {
 				if i := strings.Index(fs[1], "#"); i >= 0 {
 					ac.Callee = fs[1][:i]
 					ac.Nth, _ = strconv.Atoi(fs[1][i+1:])
+				} else if i := strings.Index(fs[1], "@L"); i >= 0 {
+					ac.Callee = fs[1][:i]
+					ac.Loop, _ = strconv.Atoi(fs[1][i+2:])
+					if ac.Loop <= 0 {
+						return fmt.Errorf("%s:%d: at call callee@L<loop ordinal>", path, l.line)
+					}
 				}
 				body := strings.TrimSpace(fs[3])
 				switch fs[2] {
